@@ -82,9 +82,9 @@ type Case struct {
 // ---------- pools / oracle tables ----------
 
 var (
-	rePats    = []string{"1|2", "x.+", ".*"}
+	rePats    = []string{"1|2", "x.+", ".*", "x.*", ".+", ".*1"}
 	badPats   = []string{"("}
-	lblValues = []string{"1", "2", "x1"}
+	lblValues = []string{"1", "2", "x1", "x1\n", "1\n2"} // incl. values with a line break ("." never matches one)
 	testIDs   = []string{"sil-a", "sil-b", "sil-c"}
 )
 
@@ -726,9 +726,9 @@ const epoch = 946684800_000_000_000
 func genVers(g *vh.Rand, n, nids int, ret int64, instants []int64) []Ver {
 	var vs []Ver
 	matchers := map[string][][]Mat{
-		"sil-a": {{{0, "a", "1"}}},
+		"sil-a": {{{0, "a", "1"}}, {{3, "a", ".*1"}, {1, "b", ".+"}}},
 		"sil-b": {{{1, "a", "1|2"}, {2, "b", "x1"}}},
-		"sil-c": {{{0, "b", "2"}}, {{1, "a", "x.+"}}},
+		"sil-c": {{{0, "b", "2"}}, {{1, "a", "x.*"}}},
 	}
 	used := map[string]map[int64]bool{}
 	for j := 0; j < n; j++ {
